@@ -149,7 +149,7 @@ def prims_for(case) -> dict:
         bodies = [c["attrs"] for c in case["classes"]] + [(case.get("wrap") or {}).get("cs", [])]
         for body in bodies:
             for k, a in body:
-                if isinstance(a, dict) and k not in ("contains", "__args__", "post_validate", "__ellipsis_args__"):
+                if isinstance(a, dict) and k not in ("contains", "__args__", "post_validate", "pre_validate", "__ellipsis_args__", "__applied__"):
                     vals += list(walk(decode(a["v"])))
                     if k == "regex":
                         decl_pats.append(decode(a["v"]))
@@ -310,7 +310,10 @@ def accept_cs(cs, v) -> bool:
             break
         if n == "decimal_places" and isinstance(run, Decimal):
             # documented (rule.md): a Decimal is first completed to `decimal_places` digits, then max_digits is checked
-            run = run.quantize(Decimal(1).scaleb(-b))
+            try:
+                run = run.quantize(Decimal(1).scaleb(-b))
+            except InvalidOperation:
+                pass          # (more than 28 digits: the value is still valid in the documented sense)
     return ok
 
 
@@ -328,7 +331,8 @@ def expected_accept(case) -> bool:
 # ------------------------------------------------------------------------------------------------
 
 CONT_KEYS = ["contains", "min_contains", "max_contains"]
-META_KEYS = ["__args__", "__ellipsis_args__", "post_validate"]
+META_KEYS = ["__args__", "__ellipsis_args__", "post_validate", "pre_validate"]
+HOOK_KEYS = ("post_validate", "pre_validate")
 HOOK_NAMES = ["even", "nonempty", "short"]
 
 
@@ -346,11 +350,11 @@ def hook_ok(name, v) -> bool:
 def _hook(name):
     from utype.utils import exceptions as exc
 
-    def post_validate(cls, value, context=None):
+    def hook(cls, value, context=None):
         if not hook_ok(name, value):
             raise exc.ConstraintError(constraint="hook", constraint_value=name)
         return value
-    return classmethod(post_validate)
+    return classmethod(hook)
 
 
 def _build_tdesc(t):
@@ -378,8 +382,10 @@ def _attr_value(key, a, types, shadow):
     if key == "__args__":
         idx = [x["o"] for x in a["v"]["t"]]
         return _Marker("args", idx) if shadow else tuple(types[i] for i in idx)
-    if key == "post_validate":
+    if key in HOOK_KEYS:
         return _Marker("hook", a["v"]["s"]) if shadow else _hook(a["v"]["s"])
+    if key == "__applied__":
+        return True
     v = decode(a["v"])
     if a.get("lax"):
         if shadow:
@@ -396,6 +402,7 @@ class ShadowRule:
     max_contains = None
     __args__ = None
     __ellipsis_args__ = False
+    __applied__ = False
 
 
 def _generic(g, ts):
@@ -444,6 +451,11 @@ def build_decl(case, shadow=False):
         if w.get("ellipsis"):
             args.append(...)
         return base.annotate(origin if w.get("origin") else None, *args, constraints=cs), None
+    if kind == "apply":
+        if shadow:
+            return type("W", (ShadowRule,), dict(cs, __applied__=True)), None
+        import utype
+        return utype.apply(**cs)(origin), None
     if kind == "getitem":
         item = w["item"]
         if shadow:
@@ -511,9 +523,10 @@ def visible(case):
     if isinstance(a, _Marker) and a.kind == "args":
         out["args"] = [case["types"][i] for i in a.payload]
         out["ellipsis"] = bool(getattr(W, "__ellipsis_args__", False))
-    h = getattr(W, "post_validate", None)
-    if isinstance(h, _Marker) and h.kind == "hook":
-        out["hook"] = h.payload
+    hooks = [h.payload for h in (getattr(W, k_, None) for k_ in HOOK_KEYS) if isinstance(h, _Marker) and h.kind == "hook"]
+    if hooks:
+        out["hook"] = hooks
+    out["applied"] = bool(getattr(W, "__applied__", False))
     if nested_base is not None:
         inner = dict(case, wrap=None)
         out["nested"] = visible(inner)
@@ -534,6 +547,8 @@ def mro_bodies(case):
                     body.append(["__args__", {"v": {"t": [{"o": i} for i in w["args"]]}, "lax": False}])
                 if w.get("ellipsis"):
                     body.append(["__ellipsis_args__", {"v": True, "lax": False}])
+            elif w.get("kind") == "apply":
+                body.append(["__applied__", {"v": True, "lax": False}])
             elif w.get("kind") == "getitem" and w["item"] != "origin":
                 idx = w["item"] if isinstance(w["item"], list) else [w["item"]]
                 body.append(["__args__", {"v": {"t": [{"o": i} for i in idx]}, "lax": False}])
@@ -599,7 +614,7 @@ def decl_expected(case) -> bool:
             n = sum([1 for x in (items if items is not None else list(v)) if item_accepts(t, x)])
             ok = ok and n >= 1 and (mn is None or n >= mn) and (mx is None or n <= mx)
         if vv["hook"] is not None:
-            ok = hook_ok(vv["hook"], v) and ok
+            ok = all([hook_ok(h_, v) for h_ in vv["hook"]]) and ok
         out = v
         if items is not None and ok:
             try:
@@ -607,6 +622,8 @@ def decl_expected(case) -> bool:
             except Exception:
                 out = v
         return ok, pad(out, vv["cs"])
+    if vis.get("applied"):
+        return True                           # @utype.apply: an instance of the origin is final (decorator.py:193, documented)
     if vis["nested"] is not None:
         ok1, v1 = one(vis["nested"], v)       # the constrained base type converts first …
         if not ok1:
@@ -1341,14 +1358,14 @@ def gen_decl_case(rng):
             except TypeError:
                 value = list(items) if origin == "list" else tuple(items)
         if rng.random() < 0.2:
-            meta.append(["post_validate", {"v": {"s": rng.choice(["nonempty", "short"])}, "lax": False}])
+            meta.append([rng.choice(["post_validate", "post_validate", "pre_validate"]), {"v": {"s": rng.choice(["nonempty", "short"])}, "lax": False}])
             feats.append("hook")
     else:
         if origin == "int" and rng.random() < 0.25:
-            meta.append(["post_validate", {"v": {"s": "even"}, "lax": False}])
+            meta.append([rng.choice(["post_validate", "post_validate", "pre_validate"]), {"v": {"s": "even"}, "lax": False}])
             feats.append("hook")
         elif origin == "str" and rng.random() < 0.25:
-            meta.append(["post_validate", {"v": {"s": rng.choice(["nonempty", "short"])}, "lax": False}])
+            meta.append([rng.choice(["post_validate", "post_validate", "pre_validate"]), {"v": {"s": rng.choice(["nonempty", "short"])}, "lax": False}])
             feats.append("hook")
         if "hook" in feats and rng.random() < 0.5:
             attrs = []          # a type whose only check is the hook
@@ -1374,7 +1391,7 @@ def gen_decl_case(rng):
         with_origin = not with_origin
     mix_bases = ["origin", "Rule"] if with_origin else ["Rule"]
     shape = rng.choice(["flat", "multibase", "multibase", "multilevel", "diamond", "override", "cancel", "rename",
-                        "annotate", "annotate", "getitem", "field", "dfield", "fieldbase"])
+                        "annotate", "annotate", "getitem", "field", "dfield", "fieldbase", "apply"])
     classes, wrap = [], None
     if shape == "flat":
         classes = [{"name": "T", "bases": ["origin", "Rule"], "attrs": flat(everything)}]
@@ -1429,8 +1446,8 @@ def gen_decl_case(rng):
         classes = [{"name": "A", "bases": ["origin", "Rule"], "attrs": flat(everything)},
                    {"name": "T", "bases": ["A"], "attrs": []}]
     elif shape == "annotate":
-        ordinary = [x for x in flat(everything) if x[0] not in ("__args__", "__ellipsis_args__", "post_validate")]
-        rest_meta = [x for x in flat(everything) if x[0] == "post_validate"]
+        ordinary = [x for x in flat(everything) if x[0] not in ("__args__", "__ellipsis_args__", "post_validate", "pre_validate")]
+        rest_meta = [x for x in flat(everything) if x[0] in HOOK_KEYS]
         argidx = [o["o"] for x in flat(everything) if x[0] == "__args__" for o in x[1]["v"]["t"]]
         ell = any(x[0] == "__ellipsis_args__" for x in flat(everything))
         cut = rng.randint(0, len(ordinary))
@@ -1441,6 +1458,10 @@ def gen_decl_case(rng):
             classes = [{"name": "A", "bases": ["origin", "Rule"] if base_has_origin else ["Rule"], "attrs": in_base}]
         wrap = {"kind": "annotate", "origin": (not base_has_origin) or rng.random() < 0.5, "args": argidx, "ellipsis": ell,
                 "cs": ordinary[cut:]}
+    elif shape == "apply":
+        # a hidden type: @utype.apply(**constraints)(origin) — by design an instance of the origin is taken as it is
+        ordinary = [x for x in flat(everything) if x[0] not in ("__args__", "__ellipsis_args__", "post_validate", "pre_validate")]
+        wrap = {"kind": "apply", "cs": ordinary}
     elif shape == "getitem":
         argidx = [o["o"] for x in flat(everything) if x[0] == "__args__" for o in x[1]["v"]["t"]]
         rest = [x for x in flat(everything) if x[0] not in ("__args__", "__ellipsis_args__")]
@@ -1455,8 +1476,8 @@ def gen_decl_case(rng):
         allx = flat(everything)
         argidx = [o["o"] for x in allx if x[0] == "__args__" for o in x[1]["v"]["t"]]
         ell = any(x[0] == "__ellipsis_args__" for x in allx)
-        ordinary = [x for x in allx if x[0] not in ("__args__", "__ellipsis_args__", "post_validate")]
-        hooks = [x for x in allx if x[0] == "post_validate"]
+        ordinary = [x for x in allx if x[0] not in ("__args__", "__ellipsis_args__", "post_validate", "pre_validate")]
+        hooks = [x for x in allx if x[0] in HOOK_KEYS]
         kind = "dfield" if shape == "dfield" else "field"
         if shape == "fieldbase" or hooks:
             cut = rng.randint(0, len(ordinary))
@@ -1613,6 +1634,10 @@ def gen_validator_case(rng, names):
     elif base == "multiple_of":
         b = rng.choice([1, 2, 3, 5, -2, 0, Decimal("0.5"), Decimal("2.5"), 10])
         v = rng.choice([rng.randint(-30, 30), Decimal(rng.choice(DEC_STRS)), rng.randint(-30, 30), True, 10 ** 20 + 1])
+    elif base in ("max_digits", "decimal_places") and rng.random() < 0.06:
+        # coefficients near the context precision (28 digits): completing to `b` places may not fit
+        b = rng.randint(0, 4)
+        v = Decimal(rng.choice([10 ** 27, 10 ** 26 + 7, 10 ** 25, 10 ** 28 - 1, 123456789 * 10 ** 18])).scaleb(-rng.choice([0, 0, 1, 2]))
     elif base in ("max_digits", "decimal_places"):
         b = rng.randint(0, 6)
         v = rng.choice([Decimal(rng.choice(DEC_STRS)), rng.randint(-1200, 12000), Decimal(rng.randint(-99999, 99999)).scaleb(rng.randint(-5, 3)),
@@ -1682,7 +1707,7 @@ class C02(Check):
 
     decl_share = 0.3
     ptype_share = 0.08
-    multi_share = 0.012
+    multi_share = 0.008
 
     def cases(self, tier, rng, n):
         out = []
@@ -1975,6 +2000,24 @@ class C02(Check):
             return None
         return None
 
+    def classify(self, case, io, why):
+        # known finding decimal-places-precision: completing a Decimal to `d` places needs more than 28 digits
+        try:
+            if case["op"] == "validator" and case["name"] == "decimal_places" and io.get("err") == "InvalidOperation":
+                v, d = decode(case["value"]), decode(case["bound"])
+            elif case["op"] == "rule" and not case.get("lax") and "perr" in io.get("parse", {}):
+                cs = self._cs(case)
+                v, d = decode(case["value"]), cs.get("decimal_places")
+            else:
+                return None
+            if isinstance(v, Decimal) and v.is_finite() and isinstance(d, int) and not isinstance(d, bool):
+                sign, digits, exp = v.as_tuple()
+                if -exp <= d and len(digits) + (exp + d) > 28 and any(digits):
+                    return "decimal-places-precision"
+        except Exception:
+            return None
+        return None
+
     @staticmethod
     def _cs(case):
         return {n: decode(b) for n, b in case["constraints"]}
@@ -1990,8 +2033,8 @@ class C02(Check):
                     out.append(f"contains=<{case['types'][a['v']['o']]}>")
                 elif k == "__args__":
                     out.append("__args__=" + str([case["types"][x["o"]] for x in a["v"]["t"]]))
-                elif k == "post_validate":
-                    out.append(f"post_validate=<{a['v']['s']}>")
+                elif k in HOOK_KEYS:
+                    out.append(f"{k}=<{a['v']['s']}>")
                 else:
                     out.append(f"{k}={decode(a['v'])!r}")
             return ", ".join(out) or "pass"
